@@ -115,17 +115,40 @@ theorem constrain_fields (op : Opts) (s : TS) :
   unfold constrain
   exact ⟨rfl, rfl, rfl, rfl⟩
 
+theorem updateList_fields (op : Opts) (s : TS) (new : List Nat) :
+    (updateList op s new).input = s.input ∧ (updateList op s new).cx = s.cx ∧ (updateList op s new).selected = s.selected := by
+  unfold updateList
+  by_cases ht : op.track = true
+  · simp only [ht, if_true]
+    generalize (if s.results.length > 0 then currentItem s else new.head?) = prev
+    cases prev with
+    | none => exact ⟨rfl, rfl, rfl⟩
+    | some i =>
+      simp only []
+      cases new.findIdx? (· == i) with
+      | some k => exact ⟨rfl, rfl, rfl⟩
+      | none =>
+        simp only []
+        split <;> exact ⟨rfl, rfl, rfl⟩
+  · simp only [ht]
+    exact ⟨rfl, rfl, rfl⟩
+
 theorem afterActions_fields (op : Opts) (b s : TS) :
     (afterActions op b s).input = s.input.take maxPatternLength ∧
     (afterActions op b s).cx = min s.cx (min s.input.length maxPatternLength) ∧
     (afterActions op b s).selected = s.selected := by
   unfold afterActions
   dsimp only
-  obtain ⟨c1, c2, c3, _⟩ := constrain_fields op
-    (if ((List.take maxPatternLength s.input != b.input) = true ∨ (s.sort != b.sort) = true) then
-      { s with input := List.take maxPatternLength s.input, cx := min s.cx (min s.input.length maxPatternLength),
-               results := op.resultsOf (List.take maxPatternLength s.input) s.sort }
-     else { s with input := List.take maxPatternLength s.input, cx := min s.cx (min s.input.length maxPatternLength) })
-  split at c1 <;> split <;> simp_all
+  split
+  · obtain ⟨c1, c2, c3, _⟩ := constrain_fields op (updateList op
+      { s with input := List.take maxPatternLength s.input, cx := min s.cx (min s.input.length maxPatternLength) }
+      ((op.resultsOf (List.take maxPatternLength s.input) s.sort).filter (fun i => !s.excluded.contains i)))
+    obtain ⟨u1, u2, u3⟩ := updateList_fields op
+      { s with input := List.take maxPatternLength s.input, cx := min s.cx (min s.input.length maxPatternLength) }
+      ((op.resultsOf (List.take maxPatternLength s.input) s.sort).filter (fun i => !s.excluded.contains i))
+    exact ⟨c1.trans u1, c2.trans u2, c3.trans u3⟩
+  · obtain ⟨c1, c2, c3, _⟩ := constrain_fields op
+      { s with input := List.take maxPatternLength s.input, cx := min s.cx (min s.input.length maxPatternLength) }
+    exact ⟨c1, c2, c3⟩
 
 end Fzf.Terminal
